@@ -184,11 +184,13 @@ Proof.
   - rewrite py_len_zs. reflexivity.
 Qed.
 
-Lemma src_FusedIO_ok : forall (divs : list Z) (buckets : list (list nat)),
-  src_FusedIO_divisions divs (map zs buckets) = fused_divisions divs buckets.
+(* `seldivs` are the (known) divisions of the partition selection of the wrapped read; the unknown case returns (None,) * n
+   before reaching the formula, and is outside the domain of known integer divisions modelled here *)
+Lemma src_FusedIO_ok : forall (divs seldivs : list Z) (buckets : list (list nat)),
+  src_FusedIO_divisions divs seldivs (map zs buckets) = Known (fused_divisions divs buckets).
 Proof.
-  intros divs buckets. unfold src_FusedIO_divisions, fused_divisions. cbv zeta.
-  unfold py_is_none_Z. cbv iota. norm_neg. f_equal.
+  intros divs seldivs buckets. unfold src_FusedIO_divisions, fused_divisions. cbv zeta.
+  unfold py_is_none_Z. cbv iota. norm_neg. f_equal. f_equal.
   - rewrite map_map. apply map_ext. intros b.
     rewrite py_index_0_hd, hd_zs. apply py_index_nat.
   - rewrite !py_index_m1_last, last_map_zs, last_zs, py_index_succ. reflexivity.
@@ -266,12 +268,12 @@ Proof.
   injection H as <-. reflexivity.
 Qed.
 
-Theorem src_fused_truthful : forall divs parts parts_sel step,
+Theorem src_fused_truthful : forall divs seldivs parts parts_sel step d,
   truthful divs parts -> strictly_increasingb parts_sel = true ->
   (forall p, In p parts_sel -> p < length parts) -> 1 <= step -> parts_sel <> [] ->
-  truthful (src_FusedIO_divisions divs (map zs (fusion_buckets parts_sel step)))
-           (fused_parts parts (fusion_buckets parts_sel step)).
-Proof. intros. rewrite src_FusedIO_ok. apply fused_truthful; assumption. Qed.
+  src_FusedIO_divisions divs seldivs (map zs (fusion_buckets parts_sel step)) = Known d ->
+  truthful d (fused_parts parts (fusion_buckets parts_sel step)).
+Proof. intros divs seldivs parts parts_sel step d Ht Hs Hb H1 Hne H. rewrite src_FusedIO_ok in H. inversion H; subst. apply fused_truthful; assumption. Qed.
 
 Theorem src_fewer_truthful : forall divs parts bs,
   truthful divs parts -> chain bs (length parts) -> interior_below bs (length parts) ->
